@@ -35,3 +35,16 @@ for _w, _files in (("html", ["html.c"]), ("latex", ["latex.c"]), ("beamer", ["be
       defines=["-DWRITER=mmd_export_token_" + _w], functions=["mmd_export_token_" + _w], min_obligations=3,
       cbmc_flags=["--unwind", "300", "--unwinding-assertions"],
       callees={"d_string_*": "lib/ds_sink.c"}, assumptions=["token type concrete BLOCK_META; output so far 3 arbitrary bytes"])
+
+# ---- the document wrappers only read the metadata table
+for _s, _fn, _file, _ps, _psd, _gl in (
+        ("latex", "mmd_start_complete_latex", "latex.c", "mmd_print_string_latex", "mmd_print_string_latex(DString * out, const char * str)", "mmd_define_glossaries_latex"),
+        ("html", "mmd_start_complete_html", "html.c", "mmd_print_string_html", "mmd_print_string_html(DString * out, const char * str, bool obfuscate, bool line_breaks)", None)):
+    for _kn in ("isbn-13", "title", "my_key"):
+        U("c20_wrapper_frame_%s_%s" % (_s, _kn.replace("-", "").replace("_", "")), ["C20"], "h_wframe", ["C20/wrapper_frame.c"], [_file], plain=True, lib=(), kind="bounded",
+          drop_bodies=[_ps] + ([_gl] if _gl else []),
+          defines=["-DI18N_DISABLED=1", "-DWF_FN=" + _fn, "-DWF_PRINT_STRING=" + _psd, '-DWF_KEY="%s"' % _kn] + (["-DWF_GLOSS=" + _gl] if _gl else []),
+          cbmc_flags=["--unwind", "40", "--unwinding-assertions", "--object-bits", "12"],
+          bounds={"metadata": "the one key '%s'" % _kn, "value": "any (2 bytes)"}, functions=[_fn],
+          callees={"d_string_append*, " + _ps: "no-op contract stubs (output not examined)", "HASH_FIND_STR / hash iteration (uthash)": "real macro code over a real one-entry table"},
+          min_obligations=10, timeout=300, cost=8, assumptions=[NOFAIL, "configuration -DI18N_DISABLED"])
